@@ -98,7 +98,13 @@ Inductive case :=
      sections in order, each RRSIG with its ValidityPeriod(now)); ref: the Go-side reference *)
 | CaseMsg (signer : list N) (keys : list (N * list dnskey)) (answer ns : list mitem)
           (t : list oracle) (ecp : list (list N * bool)) (ev : list (list N * list N * bool))
-          (got ref eqdom : bool).
+          (got ref eqdom : bool)
+  (* internal/dnsname.CompareSuffix(a, b) as isSynthesizedCNAME uses it; lib: dns.CompareDomainName,
+     wf: both names are well-formed and fully qualified (where the two must agree) *)
+| CaseSuffix (a b : list N) (got lib : N) (wf : bool)
+  (* isSynthesizedCNAME(owner -> target, dnames as (owner, target)); ref: the RFC 6672 substitution
+     done with the library's Split / CompareDomainName *)
+| CaseSynth (owner target : list N) (dnames : list (list N * list N)) (got ref wf : bool).
 
 Definition opt_eqb {A} (eq : A -> A -> bool) (a b : option A) : bool :=
   match a, b with
@@ -151,6 +157,8 @@ Definition check_case (c : case) : bool :=
       Bool.eqb (verify_rrsig_pm powmod_fast (tbl_H t) (tbl_ECP ecp) (fun _ pub dg sg => negb (is_nil dg) && tbl_EV ev pub sg)
                                (fun pub msg sg => existsb (fun o => list_eqb msg (o_msg o)) t && tbl_EV ev pub sg)
                                orc_LIBV signer keys answer ns) got
+  | CaseSuffix a b got _ _ => compare_suffix a b =? got
+  | CaseSynth owner target dnames got _ _ => Bool.eqb (is_synthesized_cname owner target dnames) got
   end.
 
 (* ------------------------------------------------------------------ spec *)
@@ -302,4 +310,6 @@ Definition spec_case (c : case) : bool :=
       implb' got ref && implb' eqdom (Bool.eqb got ref)
   | CaseMsg _ _ _ _ _ _ _ got ref eqdom =>
       implb' got ref && implb' eqdom (Bool.eqb got ref)
+  | CaseSuffix _ _ got lib wf => implb' wf (got =? lib)
+  | CaseSynth _ _ _ got ref wf => implb' wf (Bool.eqb got ref)
   end.
